@@ -4,6 +4,10 @@
   unknowns) and the end-to-end relabelling theorems for the force-matrix model (Props/C07matrix.lean: renumbering the
   vertices leaves the assembled matrix unchanged; permuting the unknowns and the junctions permutes the system).
   lean/props.json names this module for C07, so that `./check C07` builds and audits both.
+  Props/C07order.lean: storage order at the level of the mesh (a cell cycle rotated or reversed, the cell / vertex /
+  mesh-edge dictionaries in another order): same interfaces up to order and direction, same coefficients, same
+  least-squares objective per interface.
 -/
 import ForsysModel.Props.C07
 import ForsysModel.Props.C07matrix
+import ForsysModel.Props.C07order
